@@ -448,6 +448,9 @@ func (l *Local) Allocate(ctx context.Context, cni *daemon.CNI, request ResourceR
 	if ok1 && ok2 {
 		// direct return
 		respCh := make(chan *AllocResp)
+		// an ip the pod already holds (repeated request) must stay with the pod if this request is canceled
+		held4 := ipv4 != nil && ipv4.podID == cni.PodID
+		held6 := ipv6 != nil && ipv6.podID == cni.PodID
 		// assign ip to pod , as we are ready
 		// this must be protected by lock
 		if ipv4 != nil {
@@ -461,7 +464,7 @@ func (l *Local) Allocate(ctx context.Context, cni *daemon.CNI, request ResourceR
 			l.cond.L.Lock()
 			defer l.cond.L.Unlock()
 
-			l.commit(ctx, respCh, ipv4, ipv6, cni.PodID)
+			l.commitHeld(ctx, respCh, ipv4, ipv6, cni.PodID, held4, held6)
 		}()
 		return respCh, nil
 	}
@@ -633,7 +636,8 @@ func (l *Local) allocWorker(ctx context.Context, cni *daemon.CNI, request *Local
 			}
 		}
 
-		l.commit(ctx, respCh, ipv4, ipv6, cni.PodID)
+		l.commitHeld(ctx, respCh, ipv4, ipv6, cni.PodID,
+			ipv4 != nil && ipv4.podID == cni.PodID, ipv6 != nil && ipv6.podID == cni.PodID)
 
 		return
 	}
@@ -1047,6 +1051,12 @@ func (l *Local) Status() Status {
 // commit send the allocated ip result to respCh
 // if ctx canceled, the respCh will be closed
 func (l *Local) commit(ctx context.Context, respCh chan *AllocResp, ipv4, ipv6 *IP, podID string) {
+	l.commitHeld(ctx, respCh, ipv4, ipv6, podID, false, false)
+}
+
+// commitHeld is commit for a request that may be served with an ip the pod held before the request
+// (held4, held6): such an ip is not released when ctx is canceled.
+func (l *Local) commitHeld(ctx context.Context, respCh chan *AllocResp, ipv4, ipv6 *IP, podID string, held4, held6 bool) {
 	var ip types.IPSet2
 	if ipv4 != nil {
 		ip.IPv4 = ipv4.ip
@@ -1069,10 +1079,10 @@ func (l *Local) commit(ctx context.Context, respCh chan *AllocResp, ipv4, ipv6 *
 	})
 	select {
 	case <-ctx.Done():
-		if ipv4 != nil {
+		if ipv4 != nil && !held4 {
 			ipv4.Release(podID)
 		}
-		if ipv6 != nil {
+		if ipv6 != nil && !held6 {
 			ipv6.Release(podID)
 		}
 
